@@ -72,12 +72,61 @@ func selfTestImpl(prop, dir string) any {
 			res[i] = r
 		}(i, m)
 	}
+	// behaviour-preserving edits: must stay silent
+	var bs []benign
+	for _, b := range benigns {
+		if b.Prop == prop {
+			bs = append(bs, b)
+		}
+	}
+	bres := make([]mutantResult, len(bs))
+	for i, b := range bs {
+		wg.Add(1)
+		go func(i int, b benign) {
+			defer wg.Done()
+			sem <- struct{}{}
+			defer func() { <-sem }()
+			args := []string{"-property", prop, "-dir", dir, "-mutant", b.File + "::" + b.Old + "::" + b.New}
+			if b.All {
+				args = append(args, "-mutant-all")
+			}
+			out, _ := exec.Command(exe, args...).CombinedOutput()
+			text := string(out)
+			r := mutantResult{ID: b.ID, Why: b.What, Expect: "no alarm"}
+			switch {
+			case strings.Contains(text, "MUTANT-STALE"):
+				r.Outcome = "stale"
+			case strings.Contains(text, "MUTANT-NOCOMPILE"):
+				r.Outcome = "does-not-compile"
+			case strings.Contains(text, "MUTANT-HIT "):
+				r.Outcome = "FALSE-ALARM"
+				for _, l := range strings.Split(text, "\n") {
+					if strings.HasPrefix(l, "MUTANT-HIT ") {
+						if f := strings.Fields(l); len(f) >= 3 && len(r.Hits) < 4 {
+							r.Hits = append(r.Hits, f[2])
+						}
+					}
+				}
+			case strings.Contains(text, "MUTANT-DONE"):
+				r.Outcome = "quiet"
+			default:
+				r.Outcome = "error: " + clip(text, 120)
+			}
+			bres[i] = r
+		}(i, b)
+	}
 	wg.Wait()
 	cnt := map[string]int{}
+	bcnt := map[string]int{}
+	for _, r := range bres {
+		bcnt[r.Outcome]++
+		fmt.Printf("benign %s %s (%s) %v\n", r.ID, r.Outcome, r.Why, r.Hits)
+	}
 	for _, r := range res {
 		cnt[r.Outcome]++
 		fmt.Printf("selftest %s %s (%s)\n", r.ID, r.Outcome, r.Expect)
 	}
 	return map[string]any{"mutants": len(res), "outcomes": cnt, "results": res,
+		"behaviour_preserving_edits": len(bres), "behaviour_preserving_outcomes": bcnt, "behaviour_preserving_results": bres,
 		"method": "each mutant is a source edit applied via packages.Config.Overlay to the current /repo tree and analysed in its own process; it must type-check and make the named rule instance fire"}
 }
